@@ -18,20 +18,25 @@ P(addr, verb, host, ep) == [addr |-> addr, verb |-> verb, host |-> host, ep |-> 
 \* not the Python function's name "lookup" (which names nothing: GET /lookup is not found)
 \* m8: a BARE method over a class (its request message is the class, in the class' namespace); m9: a method published under a
 \* name in ANOTHER namespace ("{urn:other}look"): a pattern names its method, whatever the message of the method is called
+\* m10 / m11: the literal text of an address is TEXT, not a regular expression: "/get.user" is not "/getXuser", and "/a+b/1" is
+\* neither "/aab/1" nor "/ab/1" (SegMatch is equality)
 Patterns == << P(<<"people", "<x>">>, NoneV, NoneV, "m8"),
                P(<<"lookup", "<x>">>, NoneV, NoneV, "m9"),
+               P(<<"get.user">>, NoneV, NoneV, "m10"),
                P(<<"find">>, "GET", NoneV, "m7"),
                P(<<"b">>, NoneV, NoneV, "m3"),
                P(<<"a", "list">>, NoneV, NoneV, "m6"),
                P(<<"a", "<x>">>, NoneV, NoneV, "m2"),
+               P(<<"a+b", "<x>">>, NoneV, NoneV, "m11"),
                P(<<"a">>, "GET", NoneV, "m1"),
                P(<<"a">>, "DELETE", NoneV, "m4") >>
-Endpoints == {"m1", "m2", "m3", "m4", "m5", "m6", "m7", "m8", "m9"}     \* m5 has no pattern; m7 is only reachable through its pattern
+Endpoints == {"m1", "m2", "m3", "m4", "m5", "m6", "m7", "m8", "m9", "m10", "m11"}     \* m5 has no pattern; m7 is only reachable through its pattern
 Verbs == {"GET", "DELETE", "HEAD"}
 Hosts == {"a.example", "b.example"}   \* host PATTERNS cannot be constructed on Python 3 (str/bytes mix in HttpPattern.__init__): only the request host varies
 Paths == {<<"a">>, <<"a", "1">>, <<"a", "1", "2">>, <<"a", "">>, <<"b">>, <<"ab">>, <<"A">>,
           <<"a", "list">>, <<"a", "list", "x">>, <<"x", "m5">>, <<"m5">>, <<"m1">>, <<"x", "m2">>, <<"zz">>, <<"a", "m5">>,
-          <<"find">>, <<"lookup">>, <<"x", "find">>, <<"people", "joe">>, <<"lookup", "k1">>, <<"people">>, <<"x", "look">>, <<"x", "m9">>}
+          <<"find">>, <<"lookup">>, <<"x", "find">>, <<"people", "joe">>, <<"lookup", "k1">>, <<"people">>, <<"x", "look">>, <<"x", "m9">>,
+          <<"get.user">>, <<"getXuser">>, <<"get", "user">>, <<"a+b", "1">>, <<"aab", "1">>, <<"ab", "1">>, <<"a+b">>, <<"a b", "1">>}
 
 SegMatch(p, s)  == p = "<x>" \/ p = s
 AddrMatch(a, p) == Len(a) = Len(p) /\ \A i \in 1..Len(a) : SegMatch(a[i], p[i])
